@@ -2,7 +2,8 @@ package message
 
 // Bounded stand-in for property C34 (labelled bounded; never counted as proved):
 //  - every message built from subsets of 3 want-list entries (all 16 flag combinations
-//    each), 3 blocks (CIDv0, CIDv1 raw, CIDv1 sha2-512), 2 presences, both full flags and
+//    each), 6 blocks (CIDv0, CIDv1 raw, CIDv1 sha2-512, and prefixes differing from these in one
+//    component only: hash function, digest length, codec), 2 presences, both full flags and
 //    3 pending-bytes values round-trips through the v1 wire format unchanged; the v0 format
 //    preserves want-list and block bytes;
 //  - every single-byte corruption (xor 0x01, 0x80; truncation at every length) of a v1
@@ -76,6 +77,9 @@ func TestVerifBoundedC34RoundTrip(t *testing.T) {
 		mkBlock("", cid.Prefix{Version: 1, Codec: cid.DagCBOR, MhType: mh.SHA2_512, MhLength: -1}),
 		// same version, codec and digest length as "raw block", another hash function
 		mkBlock("raw block, other hash", cid.Prefix{Version: 1, Codec: cid.Raw, MhType: mh.DBL_SHA2_256, MhLength: -1}),
+		// prefixes that differ from an earlier one in exactly one component: digest length, codec, version
+		mkBlock("raw block, short digest", cid.Prefix{Version: 1, Codec: cid.Raw, MhType: mh.SHA2_256, MhLength: 20}),
+		mkBlock("raw block, other codec", cid.Prefix{Version: 1, Codec: cid.DagProtobuf, MhType: mh.SHA2_256, MhLength: -1}),
 	}
 	wants := []cid.Cid{blks[0].Cid(), blks[1].Cid(), mkBlock("other", cid.Prefix{Version: 1, Codec: cid.Raw, MhType: mh.SHA2_256, MhLength: -1}).Cid()}
 	cases, fails := 0, 0
@@ -88,7 +92,10 @@ func TestVerifBoundedC34RoundTrip(t *testing.T) {
 	var sample []byte
 	for wmask := 0; wmask < 8; wmask++ {
 		for flags := 0; flags < 16; flags++ {
-			for bmask := 0; bmask < 16; bmask++ {
+			for bmask := 0; bmask < 64; bmask++ {
+				if bmask >= 16 && (wmask != 7 || flags != 9) {
+					continue // the two extra prefixes run with one want-list shape only
+				}
 				for pmask := 0; pmask < 4; pmask++ {
 					for _, full := range []bool{false, true} {
 						cases++
